@@ -3,6 +3,9 @@ import re
 
 from . import common as C
 
+FLOCQ_AXIOMS = ["ClassicalDedekindReals.sig_not_dec", "ClassicalDedekindReals.sig_forall_dec",
+                "FunctionalExtensionality.functional_extensionality_dep", "Classical_Prop.classic"]
+
 META = {
     "title": "String and number literals survive generation exactly",
     "level": "proof",
@@ -17,7 +20,7 @@ META = {
                   "the harness and hex transport; decimal<->binary conversion of numbers is an oracle (Rust fmt/parse).",
     "trusted_base": ["Coq 8.16.1 kernel, vm_compute", "Model/StringLit.v reference decoders (specification)",
                      "harness/src/c13.rs + hex transport", "rustc/std for fmt and parse of f64"],
-    "allowed_axioms": [],
+    "allowed_axioms": FLOCQ_AXIOMS,  # used by C13_write_dec_int_reads_value only (float validity from Flocq)
     "rule": "all byte strings of length <= 1, all pairs over a 52-byte alphabet (quick) or all 65536 pairs (thorough), "
             "then seeded structured strings (bracket runs, control+digit, quotes, UTF-8 incl. boundary code points, "
             "threshold lengths); a case is non-trivial when the written literal contains an escape or is a long bracket; "
@@ -53,7 +56,7 @@ Definition lit_value (n : number) : f64 :=
   match n with
   | NDec bits _ => of_bits bits
   | NHex i _ None => of_N i
-  | NHex i _ (Some (e, _)) => of_N ((i * (2 ^ e mod 18446744073709551616)) mod 18446744073709551616)
+  | NHex i _ (Some (e, _)) => of_N ((i * (if N.leb 64 e then 0 else 2 ^ e)) mod 18446744073709551616)
   | NBin i _ => of_N i
   end.
 (* value of a written number: the three parenthesised forms for nan / infinities, otherwise the
@@ -81,6 +84,19 @@ Definition diag_case (c : number * string) : string :=
   match text_value (unhex (snd c)) with
   | Some v => "reads back as bits " ++ tohex (dec_digits (to_bits v))
   | None => "does not read back as a number"
+  end.
+"""
+
+WRITE_PREAMBLE = """From Coq Require Import ZArith.
+From DL Require Import Lib.Bytes Lib.F64 Lua.Syntax Model.NumberLit Model.NumberWrite.
+Open Scope N_scope.
+Open Scope string_scope.
+(* 0 = the arm is modelled and the model writes the same bytes as the code; 1 = arm not modelled
+   (fraction / recorded exponent: Rust's float printer); 2 = modelled arm, different bytes *)
+Definition stat_case (c : number * string) : N :=
+  match write_number_model (fst c) with
+  | None => 1
+  | Some t => if bytes_eqb t (unhex (snd c)) then 0 else 2
   end.
 """
 
@@ -272,6 +288,20 @@ def run_numbers(ctx):
                        "replay": "generator_utils::write_number on this NumberExpression"},
                       key="number-write:" + c[2])
 
+    # Model/NumberWrite.v (hex, binary, non-finite and integer-valued decimal arms) against the bytes the code wrote
+    stats = C.run_coq_stats(ctx.prop, WRITE_PREAMBLE, [(c[0], c[1]) for c in cases], chunk=400, tag="numwrite")
+    modelled = [c for c in cases if stats[c[0]] != 1]
+    differ = [c for c in cases if stats[c[0]] == 2]
+    ctx.stream("write_number: Rust vs Model/NumberWrite.write_number_model on the modelled arms (hex, binary, non-finite, "
+               "integer-valued decimal without exponent)", len(modelled), len(set(c[3] for c in modelled)),
+               [{"number": c[2], "written": bytes.fromhex(c[3]).decode()} for c in modelled[5:8]], mismatches=len(differ))
+    if differ and not bad:
+        c = differ[0]
+        ctx.violation("correspondence broken: write_number differs from Model/NumberWrite.write_number_model on %d numbers "
+                      "(theorems C13_write_hex_roundtrip / C13_write_bin_roundtrip no longer describe the code)" % len(differ),
+                      {"stream": "write_number model-vs-code", "number": c[2],
+                       "written": bytes.fromhex(c[3]).decode("latin-1")}, found_input=False)
+
     out = C.harness("dl-c13", ["parse", "--seed", str(ctx.seed), "--n", str(n)])
     cases, seen = [], set()
     for line in out.splitlines():
@@ -300,7 +330,7 @@ def run_numbers(ctx):
 
 def run(ctx):
     C.build_harness("dl-c13")
-    proofs_ok = C.proof_gate(ctx, ["Model/NumberLit.vo"])
+    proofs_ok = C.proof_gate(ctx, ["Model/NumberLit.vo", "Model/NumberWrite.vo"])
     run_numbers(ctx)
     run_strparse(ctx)
     run_gens(ctx)
